@@ -62,7 +62,8 @@ RULE = ("case = one meta-model text (a generated valid model or one single-rule 
 RULE_NAMES = ["types_unique", "bases_exist", "acyclic", "types_not_reserved", "members_unique",
               "members_not_reserved", "constants_unique", "constants_not_reserved", "functions_unique",
               "functions_not_reserved", "no_redeclared_member", "constructor_matches", "type_shapes",
-              "invariant_descriptions_unique", "references_resolvable", "patterns_anchored"]
+              "invariant_descriptions_unique", "references_resolvable", "patterns_anchored",
+              "stacked_members_unique"]
 
 HEADER = """From Coq Require Import List NArith Bool.
 From Coq Require Strings.String.
@@ -165,7 +166,8 @@ def _generate(ctx: lib.Ctx, n_models: int, profiles: List[str], reserved: Dict[s
         items.append({"rule": "valid", "mm": mm, "text": mmg.render_source(mm), "predicted": True,
                       "note": f"generated valid model (profile {profile}, seed {seed})", "base": i})
         for mu in gr.all_mutants(mm, random.Random(ctx.rng.getrandbits(64)), reserved, repeats=repeats):
-            items.append({"rule": mu.rule, "mm": mu.mm, "text": mu.text, "predicted": False,
+            items.append({"rule": mu.rule, "mm": mu.mm, "text": mu.text,
+                          "predicted": mu.rule.startswith("valid"),
                           "note": mu.note, "base": i})
     return items
 
@@ -197,6 +199,11 @@ def _check(ctx: lib.Ctx, items: List[Dict[str, Any]], stream: str, name: str) ->
             # no claim inside Coq for a crash, but the prediction is still compared
             if i in bad_set:
                 gaps.append(it)
+            continue
+        if it["predicted"] and it["status"] == "rejected":
+            # a valid model / control that the front end refuses: its mutants prove nothing
+            it["result"]["note"] = "valid model or control rejected by the front end"
+            gaps.append(it)
             continue
         if i not in bad_set:
             continue
@@ -252,9 +259,9 @@ def _check(ctx: lib.Ctx, items: List[Dict[str, Any]], stream: str, name: str) ->
                        note="the reference checker does not give the verdict the generator predicts for this "
                             "model (the mutation is not seen by rulesb, or a valid model is refused)")
 
-    n_mut = sum(1 for it in items if it["rule"] != "valid")
+    n_mut = sum(1 for it in items if not it["predicted"])
     ctx.count(stream, len(items),
-              nontrivial_keys=[(it["rule"], lib.stable_key(it["text"])) for it in items if it["rule"] != "valid"],
+              nontrivial_keys=[(it["rule"], lib.stable_key(it["text"])) for it in items if not it["predicted"]],
               validated=len(items), outcomes=dict(outcome), mutants=n_mut, valid_models=len(items) - n_mut,
               by_rule_and_outcome=dict(sorted(per_rule.items())), ineffective_mutants=n_ineffective,
               prediction_gaps=len(gaps))
@@ -291,7 +298,7 @@ def streams(ctx: lib.Ctx) -> None:
             for k, v in it["mm"].features.items():
                 feats[k] += v
     ctx.coverage["generator_features"] = dict(sorted(feats.items()))
-    for it in items[:2] + [it for it in items if it["rule"] != "valid"][:4]:
+    for it in items[:2] + [it for it in items if not it["predicted"]][:4]:
         ctx.sample({"rule": it["rule"], "note": it["note"], "front_end": it["status"],
                     "text_chars": len(it["text"])})
 
@@ -307,7 +314,7 @@ def _oracle_only(ctx: lib.Ctx, reserved: Dict[str, Any]) -> None:
     results = _run_front_end([it["text"] for it in items])
     seen = set()
     for it, res in sorted(zip(items, results), key=lambda p: len(p[0]["text"])):
-        if it["rule"] == "valid":
+        if it["predicted"]:
             continue
         if res["status"] == "ok":
             key = f"accepted:{it['rule']}"
